@@ -609,23 +609,23 @@ bool Process::open(const String& executable, int argc, char* const argv[], uint 
     return false;
   }
 
-  // create pipes
+  // create pipes; close-on-exec, or the ends the parent keeps leak into children started later (this child would not see the end of its input)
   int stdoutFds[2] = {};
   int stderrFds[2] = {};
   int stdinFds[2] = {};
   if (streams & stdoutStream)
   {
-    if (pipe(stdoutFds) != 0)
+    if (pipe2(stdoutFds, O_CLOEXEC) != 0)
       goto error;
   }
   if (streams & stderrStream)
   {
-    if (pipe(stderrFds) != 0)
+    if (pipe2(stderrFds, O_CLOEXEC) != 0)
       goto error;
   }
   if (streams & stdinStream)
   {
-    if (pipe(stdinFds) != 0)
+    if (pipe2(stdinFds, O_CLOEXEC) != 0)
       goto error;
   }
 
